@@ -49,7 +49,7 @@ type BSCase struct {
 	Ops      []BSOp    `json:"ops"`
 }
 
-const c15Rule = "rapid-generated sequences of blockstore calls (Put, PutMany, Get, Has, GetSize, DeleteBlock, HashOnRead on/off), each with a live or an already cancelled context, over blocks of 0..200 bytes (+70 KiB) addressed by CIDv0/v1 x raw/dag-pb/dag-cbor x sha2-256/sha2-512/blake2b-256/identity (sha2 digests also truncated, one length per function and case) built with Prefix.Sum, CID variants of one multihash used interchangeably, deliberately mismatching (data, CID) pairs, 8..12 index bits so blocks share buckets, optionally with the periodic flusher running; " +
+const c15Rule = "rapid-generated sequences of blockstore calls (Put, PutMany, Get, Has, GetSize, DeleteBlock, HashOnRead on/off), each with a live or an already cancelled context, over blocks of 0..200 bytes (+70 KiB) addressed by CIDv0/v1 x raw/dag-pb/dag-cbor x sha2-256/sha2-512/sha3-512/blake2b-256/blake2b-512/identity up to 300 bytes (multihashes of more than 64 bytes included; sha2 digests also truncated, one length per function and case) built with Prefix.Sum, CID variants of one multihash used interchangeably, deliberately mismatching (data, CID) pairs, 8..12 index bits so blocks share buckets, optionally with the periodic flusher running, and close/reopen of the blockstore between calls; " +
 	"oracle = map keyed by multihash (first Put wins, duplicates silent) + contract clauses: same CID and bytes back, Has/GetSize agree with Get, delete => ipld.IsNotFound, unknown => IsNotFound, cancelled context => error and no effect (verified by later reads), hash-on-read enabled => ErrWrongHash exactly for stored bytes that do not hash to the requested CID, disabled => bytes returned; " +
 	"non-trivial = >=2 CID variants of one multihash used, a delete of a present block, HashOnRead toggled in both directions; distinct = distinct canonical JSON of the case"
 
@@ -61,8 +61,15 @@ func genBS(t *rapid.T) BSCase {
 	c.PrimSize = []uint32{64, 256, 1024, 0}[weighted(t, "prim", []int{2, 2, 2, 2})]
 	c.IdxSize = []uint32{64, 256, 1024, 0}[weighted(t, "idx", []int{2, 2, 2, 2})]
 	c.Started = weighted(t, "started", []int{2, 1}) == 1
-	nb := rapid.IntRange(2, 24).Draw(t, "nblocks")
-	idLen := rapid.IntRange(4, 12).Draw(t, "idlen") // identity-addressed blocks share one length (prefix-free digests)
+	// Few blocks most of the time, so that calls meet on the same block.
+	nbHi := []int{5, 12, 24}[weighted(t, "nblocksClass", []int{3, 2, 1})]
+	nb := rapid.IntRange(2, nbHi).Draw(t, "nblocks")
+	// Identity-addressed blocks share one length (prefix-free digests); long
+	// ones make multihashes of more than 64 bytes.
+	idLen := rapid.IntRange(4, 12).Draw(t, "idlen")
+	if weighted(t, "longid", []int{4, 1}) == 1 {
+		idLen = []int{40, 65, 100, 300}[rapid.IntRange(0, 3).Draw(t, "idlenlong")]
+	}
 	trunc := map[uint64]int{}
 	if weighted(t, "truncated", []int{3, 1}) == 1 {
 		trunc[mh.SHA2_256] = []int{20, 16, 28}[rapid.IntRange(0, 2).Draw(t, "mhlen256")]
@@ -72,7 +79,7 @@ func genBS(t *rapid.T) BSCase {
 	}
 	for i := 0; i < nb; i++ {
 		var b BSBlock
-		b.Hash = []uint64{mh.SHA2_256, mh.SHA2_512, mh.BLAKE2B_MIN + 31, mh.IDENTITY}[weighted(t, "hash", []int{6, 2, 1, 2})]
+		b.Hash = []uint64{mh.SHA2_256, mh.SHA2_512, mh.BLAKE2B_MIN + 31, mh.IDENTITY, mh.BLAKE2B_MAX, mh.SHA3_512}[weighted(t, "hash", []int{6, 2, 1, 2, 1, 1})]
 		n := []int{0, 1, 3, 10, 50, 200, 70000}[weighted(t, "len", []int{3, 2, 3, 5, 4, 2, 0})]
 		if weighted(t, "huge", []int{60, 1}) == 1 {
 			n = 70000
@@ -100,9 +107,9 @@ func genBS(t *rapid.T) BSCase {
 		}
 		c.Blocks = append(c.Blocks, b)
 	}
-	kinds := []string{"put", "putmany", "get", "has", "size", "del", "hor"}
+	kinds := []string{"put", "putmany", "get", "has", "size", "del", "hor", "reopen"}
 	w := make([]int, len(kinds))
-	for i, mx := range []int{8, 2, 6, 2, 2, 3, 2} {
+	for i, mx := range []int{8, 2, 6, 2, 2, 3, 2, 1} {
 		w[i] = rapid.IntRange(0, mx).Draw(t, "w_"+kinds[i])
 	}
 	if w[0] == 0 {
@@ -117,14 +124,23 @@ func genBS(t *rapid.T) BSCase {
 			}
 		}
 	}
+	horPrev := false
 	c.Ops = rapid.SliceOfN(rapid.Custom(func(t *rapid.T) BSOp {
 		op := BSOp{K: kinds[weighted(t, "kind", w)]}
 		op.Cancelled = weighted(t, "cancelled", []int{8, 1}) == 1
 		switch op.K {
 		case "putmany":
 			op.Blks = rapid.SliceOfN(rapid.IntRange(0, nb-1), 0, 5).Draw(t, "blks")
+		case "reopen":
+			horPrev = false
 		case "hor":
-			op.On = rapid.Bool().Draw(t, "on")
+			// Mostly a real toggle (the previous setting is tracked while the
+			// list is generated).
+			op.On = horPrev
+			if weighted(t, "toggle", []int{1, 3}) == 1 {
+				op.On = !horPrev
+			}
+			horPrev = op.On
 		default:
 			op.Blk = rapid.IntRange(0, nb-1).Draw(t, "blk")
 			op.Variant = rapid.IntRange(0, 3).Draw(t, "variant")
@@ -174,7 +190,7 @@ func cidFor(b BSBlock, idx, variant int) cid.Cid {
 }
 
 type bsStats struct {
-	variants, del, horOn, horOff, cancelled, wrongRead bool
+	variants, del, horOn, horOff, cancelled, wrongRead, reopened bool
 }
 
 func runBS(c BSCase) (st bsStats, v *Violation) {
@@ -192,7 +208,7 @@ func runBS(c BSCase) (st bsStats, v *Violation) {
 	if c.Started {
 		bs.Start()
 	}
-	defer bs.Close()
+	defer func() { bs.Close() }()
 	cancelled, cancel := context.WithCancel(context.Background())
 	cancel()
 	model := map[string][]byte{}
@@ -359,6 +375,21 @@ func runBS(c BSCase) (st bsStats, v *Violation) {
 			}
 			delete(model, string(id.Hash()))
 			return checkRead(i, "del", id)
+		case "reopen":
+			// Close and open again: blocks are now read from the files, and
+			// hash-on-read is back at its default (off).
+			bs.Close()
+			nbs, err := storethehash.OpenHashedBlockstore(context.Background(), filepath.Join(dir, idxBase), filepath.Join(dir, dataBase), opts...)
+			if err != nil {
+				return viol("open-error|reopen|"+errClass(err), i, "OpenHashedBlockstore on the closed blockstore's files: %v", err)
+			}
+			bs = nbs
+			if c.Started {
+				bs.Start()
+			}
+			hor = false
+			st.reopened = true
+			return nil
 		case "hor":
 			bs.HashOnRead(op.On)
 			hor = op.On
@@ -425,7 +456,7 @@ func TestC15(t *testing.T) {
 		c := genBS(rt)
 		st, v := runBS(c)
 		var cl []string
-		for name, on := range map[string]bool{"cid-variants": st.variants, "delete-present": st.del, "hor-on": st.horOn, "hor-off-after-on": st.horOff,
+		for name, on := range map[string]bool{"cid-variants": st.variants, "delete-present": st.del, "hor-on": st.horOn, "hor-off-after-on": st.horOff, "reopened": st.reopened,
 			"cancelled-context": st.cancelled, "mismatching-pair-read-with-hor": st.wrongRead, "flusher-running": c.Started} {
 			if on {
 				cl = append(cl, name)
